@@ -120,15 +120,18 @@ Check C05_external :
   forall u, is_ref_url u = false <-> starts_ci "http://" u \/ starts_ci "https://" u \/ starts_ci "mailto:" u.
 Print Assumptions C05_external.
 
-(* the `.md` suffix is ignored, for inline keys and for resolved block-reference keys *)
+(* one `.md` suffix is ignored, for file names and for resolved block-reference keys: `x.md` names the
+   note x whatever x is (also `x = y.md`: `y.md.md` is the note `y.md`), and so does `x` unless it ends in `.md` *)
 Theorem C05_md_ignored :
-  forall x d, key_from_file_name (x +++ MD) = key_from_file_name x /\
-              from_rel_link_url (x +++ MD) d = from_rel_link_url x d.
-Proof. exact (fun x d => conj (key_md_ignored x) (rel_link_md_ignored x d)). Qed.
+  forall x d, key_from_file_name (x +++ MD) = x /\
+              from_rel_link_url (x +++ MD) d = join_normalized d x /\
+              (ends_with MD x = false -> key_from_file_name x = x /\ from_rel_link_url x d = join_normalized d x).
+Proof. exact (fun x d => conj (key_md_ignored x) (conj (rel_link_md_ignored x d) (key_md_absent x d))). Qed.
 
 Check C05_md_ignored :
-  forall x d, key_from_file_name (x +++ MD) = key_from_file_name x /\
-              from_rel_link_url (x +++ MD) d = from_rel_link_url x d.
+  forall x d, key_from_file_name (x +++ MD) = x /\
+              from_rel_link_url (x +++ MD) d = join_normalized d x /\
+              (ends_with MD x = false -> key_from_file_name x = x /\ from_rel_link_url x d = join_normalized d x).
 Print Assumptions C05_md_ignored.
 
 (* a block reference is keyed by its url resolved against the directory of the linking
@@ -147,26 +150,26 @@ Check C05_resolution :
 Print Assumptions C05_resolution.
 
 Theorem C05_resolution_roundtrip :
-  forall ks ds : list string,
-    Forall good_name ks -> Forall good_name ds -> ends_with MD (join SEPS ks) = false ->
-    from_rel_link_url (to_rel_link_url (join SEPS ks) (join SEPS ds)) (join SEPS ds) = join SEPS ks.
-Proof. exact roundtrip_canonical. Qed.
+  forall (ks ds : list string) (ext : string),
+    Forall good_name ks -> Forall good_name ds -> ext = MD \/ ext = "" ->
+    from_rel_link_url (ref_url (to_rel_link_url (join SEPS ks) (join SEPS ds)) ext) (join SEPS ds) = join SEPS ks.
+Proof. exact roundtrip_written. Qed.
 
 Check C05_resolution_roundtrip :
-  forall ks ds : list string,
-    Forall good_name ks -> Forall good_name ds -> ends_with MD (join SEPS ks) = false ->
-    from_rel_link_url (to_rel_link_url (join SEPS ks) (join SEPS ds)) (join SEPS ds) = join SEPS ks.
+  forall (ks ds : list string) (ext : string),
+    Forall good_name ks -> Forall good_name ds -> ext = MD \/ ext = "" ->
+    from_rel_link_url (ref_url (to_rel_link_url (join SEPS ks) (join SEPS ds)) ext) (join SEPS ds) = join SEPS ks.
 Print Assumptions C05_resolution_roundtrip.
 
 (* F9 (open finding): an inline link is keyed without the linking note's directory *)
 Theorem C05_inline_resolution_refuted :
-  (forall url title lt ils, ref_keys [Link url title lt ils] = [key_from_file_name url]) /\
+  (forall url title lt ils, ref_keys [Link url title lt ils] = [key_name url]) /\
   exists dir url, ref_keys [Link url "" Regular [Str "x"]] = ["m"] /\
                   from_rel_link_url url dir = "d/m" /\ dir = key_parent "d/n".
 Proof. exact (conj inline_key_no_directory inline_resolution_refuted). Qed.
 
 Check C05_inline_resolution_refuted :
-  (forall url title lt ils, ref_keys [Link url title lt ils] = [key_from_file_name url]) /\
+  (forall url title lt ils, ref_keys [Link url title lt ils] = [key_name url]) /\
   exists dir url, ref_keys [Link url "" Regular [Str "x"]] = ["m"] /\
                   from_rel_link_url url dir = "d/m" /\ dir = key_parent "d/n".
 Print Assumptions C05_inline_resolution_refuted.
